@@ -126,7 +126,7 @@ class Cmp:
         if tuple(iv.shape) != tuple(rv.shape):
             return self.miss(where, "shape %r, written layout %r" % (tuple(iv.shape), tuple(rv.shape)))
         anysym = any(isinstance(e, RI.Sym) for row in rv.rows for e in row)
-        if not anysym:
+        if not anysym and self.strict:
             want = {"int": "iu", "float": "f", "complex": "c"}[rv.kind]
             if iv.dtype.kind not in want:
                 self.miss(where, "element type %s, declared %s" % (iv.dtype, rv.kind))
